@@ -350,3 +350,52 @@ func isCallValue(pred func(ssa.Instruction) bool) func(ssa.Value) bool {
 		return ok && pred(cl)
 	}
 }
+
+// thresholdAlg is the algebra of the admission threshold: k, and accepts/total (the sums
+// the Reduce callback feeds from Bucket.Sum / Bucket.Count).
+func (c *c01ctx) thresholdAlg() *core.Alg {
+	return &core.Alg{Name: func(v ssa.Value) string {
+		if c.kField != "" && core.FieldAddrNameOfLoad(v) == c.kField {
+			return "k"
+		}
+		return c.historyName(v)
+	}}
+}
+
+// ratioSignForms lists normal forms whose sign test decides "ratio ≤ 0" for the value
+// handed to the random draw: the ratio itself; q when ratio ≡ max(0, q) (max(0,q) ≤ 0 ⟺
+// q ≤ 0); and the numerator n when q ≡ n / d with d > 0 on every history. d > 0 is shown
+// by interval evaluation with total ∈ [0, 2^62] (total sums Bucket.Count, which only
+// Bucket.add (+1) and Bucket.reset (0) write: the imported window rule W/D1/K7/ring-operations).
+func (c *c01ctx) ratioSignForms(a *core.Alg, ratio ssa.Value) []core.Poly {
+	forms := []core.Poly{a.Norm(ratio)}
+	q := core.Forward(ratio)
+	if cl, ok := q.(*ssa.Call); ok {
+		switch core.Short(core.CalleeName(cl)) {
+		case "math.Max", "builtin:max":
+			args := core.Args(cl)
+			if len(args) == 2 {
+				for i := range args {
+					if z, isC := core.ConstFloat(args[i]); isC && z == 0 {
+						q = core.Forward(args[1-i])
+						forms = append(forms, a.Norm(q))
+					}
+				}
+			}
+		}
+	}
+	for {
+		cv, ok := q.(*ssa.Convert)
+		if !ok {
+			break
+		}
+		q = core.Forward(cv.X)
+	}
+	if b, ok := q.(*ssa.BinOp); ok && b.Op == token.QUO {
+		den := a.Norm(b.Y)
+		if iv, bounded := den.Range(map[string]core.Interval{"total": {Lo: 0, Hi: 1 << 62}}); bounded && iv.Lo > 0 {
+			forms = append(forms, a.Norm(b.X))
+		}
+	}
+	return forms
+}
